@@ -8,12 +8,440 @@ import CassisModel.Proofs.XmiLoad2
 namespace Cassis.Xmi
 open Cassis.TS Cassis.Traverse Cassis.Lex
 
+/-! ### association lists -/
+
+theorem rtp_alistSet_keys {β} (l : List (String × β)) (k : String) (v u : β) (h : alistGet? l k = some u) :
+    (alistSet l k v).map (·.1) = l.map (·.1) := by
+  induction l with
+  | nil => simp [alistGet?] at h
+  | cons p rest ih =>
+    obtain ⟨k', v'⟩ := p
+    unfold alistGet? at h
+    unfold alistSet
+    split
+    · rename_i hk; simp [hk]
+    · rename_i hk
+      rw [if_neg hk] at h
+      simp [ih h]
+
+theorem rtp_alistGet?_mem {β} (l : List (String × β)) (k : String) (u : β) (h : alistGet? l k = some u) :
+    (k, u) ∈ l := by
+  induction l with
+  | nil => simp [alistGet?] at h
+  | cons p rest ih =>
+    obtain ⟨k', v'⟩ := p
+    unfold alistGet? at h
+    split at h
+    · rename_i hk; cases h; subst hk; exact List.mem_cons_self
+    · exact List.mem_cons_of_mem _ (ih h)
+
+theorem rtp_alistGet?_key {β} (l : List (String × β)) (k : String) (u : β) (h : alistGet? l k = some u) :
+    k ∈ l.map (·.1) :=
+  List.mem_map.2 ⟨(k, u), rtp_alistGet?_mem l k u h, rfl⟩
+
+/-! ### one assignment -/
+
+/-- `hpY` is `hpX` with slot `n` of the object at `a` holding `w` (and nothing else changed) -/
+def Step (hpX hpY : Heap) (a : Nat) (n : String) (w : Val) : Prop :=
+  hpY.length = hpX.length ∧ (∀ b, b ≠ a → hpY[b]? = hpX[b]?) ∧
+  ∃ o1 o2 : Obj, hpX[a]? = some o1 ∧ hpY[a]? = some o2 ∧ o2.ty = o1.ty ∧ o2.xid = o1.xid ∧
+    o2.slots.map (·.1) = o1.slots.map (·.1) ∧ alistGet? o2.slots n = some w ∧
+    ∀ m, m ≠ n → alistGet? o2.slots m = alistGet? o1.slots m
+
+theorem Step.same {hpX : Heap} {a : Nat} {n : String} {w : Val} {o1 : Obj} (h1 : hpX[a]? = some o1)
+    (h2 : alistGet? o1.slots n = some w) : Step hpX hpX a n w :=
+  ⟨rfl, fun _ _ => rfl, o1, o1, h1, h1, rfl, rfl, rfl, h2, fun _ _ => rfl⟩
+
+theorem setSlot_step {hpX : Heap} {a : Nat} {n : String} {u : Val} (w : Val) {o1 : Obj} (h1 : hpX[a]? = some o1)
+    (h2 : alistGet? o1.slots n = some u) : ∃ hpY, Heap.setSlot hpX a n w = .ok hpY ∧ Step hpX hpY a n w := by
+  have hlt : a < hpX.length := by
+    rcases Nat.lt_or_ge a hpX.length with h | h
+    · exact h
+    · rw [List.getElem?_eq_none h] at h1; cases h1
+  refine ⟨hpX.set a { o1 with slots := alistSet o1.slots n w }, ?_, ?_⟩
+  · unfold Heap.setSlot
+    simp only [h1, h2]
+  · refine ⟨List.length_set, fun b hb => List.getElem?_set_ne (Ne.symm hb), o1, _, h1,
+      List.getElem?_set_self hlt, rfl, rfl, ?_, ?_, ?_⟩
+    · exact rtp_alistSet_keys _ _ _ _ h2
+    · exact alistGet?_set_same _ _ _
+    · intro m hm; exact alistGet?_set_other _ _ _ _ hm
+
+/-! ### `postFeature` on one flat feature -/
+
+theorem rtp_slot {hpX : Heap} {a : Nat} {n : String} {w : Val} {o1 : Obj} (h1 : hpX[a]? = some o1)
+    (h2 : alistGet? o1.slots n = some w) : (Xmi.slot hpX a n).getD .none = w := by
+  simp [Xmi.slot, Traverse.slot, h1, h2]
+
+theorem postFeature_sofa_none (K : Consts) (ts : TypeSystem) (tsIdx ci' : Nat) (sofas : List (Int × PSofa))
+    (fss : List (Int × Nat)) (hpX : Heap) (a : Nat) (ty : String) (isStrArr : Bool) (f : Feature) (o1 : Obj)
+    (hname : f.name = "sofa") (h1 : hpX[a]? = some o1) (h2 : alistGet? o1.slots f.name = some .none) :
+    postFeature K ts tsIdx ci' sofas fss hpX a ty isStrArr f = .ok hpX := by
+  unfold postFeature
+  simp only [rtp_slot h1 h2]
+  simp only [hname, beq_self_eq_true, if_true]
+  rfl
+
+theorem postFeature_sofa_int (K : Consts) (ts : TypeSystem) (tsIdx ci' : Nat) (sofas : List (Int × PSofa))
+    (fss : List (Int × Nat)) (hpX : Heap) (a : Nat) (ty : String) (isStrArr : Bool) (f : Feature) (o1 : Obj)
+    (i : Int) (ps : Int × PSofa)
+    (hname : f.name = "sofa") (h1 : hpX[a]? = some o1) (h2 : alistGet? o1.slots f.name = some (.int i))
+    (hf : sofas.find? (fun p => p.1 == i) = some ps) :
+    postFeature K ts tsIdx ci' sofas fss hpX a ty isStrArr f = Heap.setSlot hpX a "sofa" (.sofa ci' ps.2.sofaID) := by
+  unfold postFeature
+  simp only [rtp_slot h1 h2]
+  simp only [hname, beq_self_eq_true, if_true, hf]
+
+theorem postFeature_prim (K : Consts) (ts : TypeSystem) (tsIdx ci' : Nat) (sofas : List (Int × PSofa))
+    (fss : List (Int × Nat)) (hpX : Heap) (a : Nat) (ty : String) (f : Feature) (o1 : Obj) (w w' : Val)
+    (hname : f.name ≠ "sofa") (hprim : isPrimitive K ts f.range = true)
+    (h1 : hpX[a]? = some o1) (h2 : alistGet? o1.slots f.name = some w)
+    (hparse : parsePrimValue ts (ts.types.length + 1) f.range w = .ok w') :
+    postFeature K ts tsIdx ci' sofas fss hpX a ty false f = Heap.setSlot hpX a f.name w' := by
+  unfold postFeature
+  simp only [rtp_slot h1 h2]
+  simp only [beq_eq_false_iff_ne.2 hname, Bool.false_eq_true, if_false, hprim, if_true, hparse]
+  rfl
+
+theorem postFeature_ref_none (K : Consts) (ts : TypeSystem) (tsIdx ci' : Nat) (sofas : List (Int × PSofa))
+    (fss : List (Int × Nat)) (hpX : Heap) (a : Nat) (ty : String) (f : Feature) (o1 : Obj)
+    (hname : f.name ≠ "sofa") (hprim : isPrimitive K ts f.range = false)
+    (hty : isPrimitiveArray K ty = false) (hr1 : isPrimitiveArray K f.range = false)
+    (hr2 : isPrimitiveList K f.range = false)
+    (h1 : hpX[a]? = some o1) (h2 : alistGet? o1.slots f.name = some .none) :
+    postFeature K ts tsIdx ci' sofas fss hpX a ty false f = .ok hpX := by
+  unfold postFeature
+  simp only [rtp_slot h1 h2]
+  simp only [beq_eq_false_iff_ne.2 hname, Bool.false_eq_true, if_false, hprim, hty, hr1, hr2, Bool.false_and]
+  rfl
+
+theorem postFeature_ref_str (K : Consts) (ts : TypeSystem) (tsIdx ci' : Nat) (sofas : List (Int × PSofa))
+    (fss : List (Int × Nat)) (hpX : Heap) (a : Nat) (ty : String) (f : Feature) (o1 : Obj) (s : String) (x : Int)
+    (t : Nat)
+    (hname : f.name ≠ "sofa") (hprim : isPrimitive K ts f.range = false)
+    (hty : isPrimitiveArray K ty = false) (hr1 : isPrimitiveArray K f.range = false)
+    (hr2 : isPrimitiveList K f.range = false) (hty2 : ty ≠ FS_ARRAY) (hr3 : f.range ≠ FS_ARRAY)
+    (hr4 : f.range ≠ FS_LIST)
+    (h1 : hpX[a]? = some o1) (h2 : alistGet? o1.slots f.name = some (.str s))
+    (hparse : parseIntE s = .ok x) (hlook : lookupFs fss x = .ok t) :
+    postFeature K ts tsIdx ci' sofas fss hpX a ty false f = Heap.setSlot hpX a f.name (.ref t) := by
+  unfold postFeature
+  simp only [rtp_slot h1 h2]
+  simp only [beq_eq_false_iff_ne.2 hname, Bool.false_eq_true, if_false, hprim, hty, hr1, hr2, Bool.false_and,
+    beq_eq_false_iff_ne.2 hty2, beq_eq_false_iff_ne.2 hr3, beq_eq_false_iff_ne.2 hr4, Bool.or_self, hparse]
+  show (lookupFs fss x >>= fun t => Heap.setSlot hpX a f.name (.ref t)) = _
+  rw [hlook]
+  rfl
+
+/-! ### the two tables of the reader -/
+
+theorem rtp_find_fss (na : Int → Nat) (x : Int) (L : List (Int × Nat)) (h : ∃ q ∈ L, q.1 = x) :
+    (L.map (fun q => (q.1, na q.1))).find? (fun p => p.1 == x) = some (x, na x) := by
+  induction L with
+  | nil => obtain ⟨q, hq, _⟩ := h; cases hq
+  | cons q0 L ih =>
+    rw [List.map_cons, List.find?_cons]
+    by_cases h0 : q0.1 = x
+    · simp [h0]
+    · have : ((q0.1, na q0.1).1 == x) = false := by simpa using h0
+      rw [this]
+      apply ih
+      obtain ⟨q, hq, hqx⟩ := h
+      rcases List.mem_cons.1 hq with rfl | hq
+      · exact absurd hqx h0
+      · exact ⟨q, hq, hqx⟩
+
+theorem lookupFs_fss (n0 : Nat) (na : Int → Nat) (x : Int) (L : List (Int × Nat)) (hx : x ≠ 0)
+    (h : ∃ q ∈ L, q.1 = x) : lookupFs ((0, n0) :: L.map (fun q => (q.1, na q.1))) x = .ok (na x) := by
+  unfold lookupFs
+  rw [List.find?_cons]
+  have : (((0 : Int), n0).1 == x) = false := by simpa using Ne.symm hx
+  rw [this, rtp_find_fss na x L h]
+
+theorem rtp_find_sofa (vs : List (String × View)) (nv : String × View) (hmem : nv ∈ vs)
+    (hnd : (vs.map (·.2.sofa.xid)).Nodup) :
+    (vs.map (fun nv => (nv.2.sofa.xid, psofaOf nv))).find? (fun p => p.1 == nv.2.sofa.xid) =
+      some (nv.2.sofa.xid, psofaOf nv) := by
+  induction vs with
+  | nil => cases hmem
+  | cons v0 vs ih =>
+    rw [List.map_cons, List.find?_cons]
+    rw [List.map_cons, List.nodup_cons] at hnd
+    rcases List.mem_cons.1 hmem with rfl | hm
+    · simp
+    · have hne : v0.2.sofa.xid ≠ nv.2.sofa.xid := by
+        intro he
+        exact hnd.1 (List.mem_map.2 ⟨nv, hm, he.symm⟩)
+      have : ((v0.2.sofa.xid, psofaOf v0).1 == nv.2.sofa.xid) = false := by simpa using hne
+      rw [this]
+      exact ih hm hnd.2
+
+/-! ### primitive values -/
+
+theorem rtp_parse_none (ts : TypeSystem) (n : Nat) (r : String) : parsePrimValue ts (n + 1) r .none = .ok .none := by
+  unfold parsePrimValue
+  rfl
+
+theorem rtp_parse_str (ts : TypeSystem) (n : Nat) (s : String) :
+    parsePrimValue ts (n + 1) "uima.cas.String" (.str s) = .ok (.str s) := by
+  unfold parsePrimValue
+  rw [if_pos (by decide)]
+
+theorem rtp_parse_float (ts : TypeSystem) (n : Nat) (r t : String) (h : r = "uima.cas.Float" ∨ r = "uima.cas.Double") :
+    parsePrimValue ts (n + 1) r (.str t) = .ok (.float t) := by
+  unfold parsePrimValue
+  rcases h with rfl | rfl
+  · rw [if_neg (by decide), if_pos (by decide)]
+  · rw [if_neg (by decide), if_pos (by decide)]
+
+theorem rtp_intRange {r : String} (h : isIntRange r = true) :
+    r ∈ ["uima.cas.Integer", "uima.cas.Short", "uima.cas.Long", "uima.cas.Byte"] := by
+  simp only [isIntRange, Bool.or_eq_true, beq_iff_eq] at h
+  simp only [List.mem_cons, List.not_mem_nil, or_false]
+  rcases h with ((h | h) | h) | h <;> simp [h]
+
+/-! ### one flat feature -/
+
+theorem postFeature_flat (K : Consts) (ts : TypeSystem) (cass : List Cas) (ci : Nat) (c : Cas) (H : Heap)
+    (L : List (Int × Nat)) (na : Int → Nat) (tsIdx ci' : Nat) (sofas : List (Int × PSofa)) (fss : List (Int × Nat))
+    (hc : cass[ci]? = some c) (hnames : ∀ nv ∈ c.views, nv.2.sofa.sofaID = nv.1)
+    (hnd : (c.views.map (·.2.sofa.xid)).Nodup)
+    (hsofas : sofas = c.views.map (fun nv => (nv.2.sofa.xid, psofaOf nv)))
+    (hfss : fss = (0, H.length) :: L.map (fun q => (q.1, na q.1)))
+    (isAnn : Bool) (o : Obj) (f : Feature)
+    (href : ∀ (n : String) (b : Nat), alistGet? o.slots n = some (.ref b) →
+      ∃ x : Int, xidOf H b = some x ∧ x ≠ 0 ∧ ∃ q ∈ L, q.1 = x)
+    (hty1 : isPrimitiveArray K o.ty = false) (hty2 : o.ty ≠ FS_ARRAY)
+    (hflat : FlatFeat K ts c ci H isAnn o f)
+    (hpX : Heap) (a' : Nat) (o' : Obj) (h1 : hpX[a']? = some o')
+    (hE1 : ∀ v, alistGet? o.slots f.name = some v → alistGet? o'.slots f.name = some (exp1 cass H isAnn o f.name v)) :
+    ∃ hpY v, postFeature K ts tsIdx ci' sofas fss hpX a' o.ty false f = .ok hpY ∧
+      alistGet? o.slots f.name = some v ∧ Step hpX hpY a' f.name (exp2 cass H na ci' isAnn o f.name v) := by
+  obtain ⟨_, _, _, _, _, hr1, hr2, hr3, hr4, _, _, v, hv, hcases⟩ := hflat
+  have hw := hE1 v hv
+  rcases hcases with ⟨hname, hs⟩ | ⟨hname, hprim, hp⟩ | ⟨hname, hprim, _, _, _, _, _, hr⟩
+  · -- the sofa
+    rcases hs with ⟨vn, rfl, hsome⟩ | ⟨rfl, _⟩
+    · obtain ⟨view, hview⟩ := Option.isSome_iff_exists.1 hsome
+      have he1 : exp1 cass H isAnn o f.name (.sofa ci vn) = .int view.sofa.xid := by
+        simp [exp1, hc, hview]
+      rw [he1] at hw
+      have hmem : (vn, view) ∈ c.views := rtp_alistGet?_mem _ _ _ hview
+      have hfind := rtp_find_sofa c.views (vn, view) hmem hnd
+      rw [← hsofas] at hfind
+      have hpf := postFeature_sofa_int K ts tsIdx ci' sofas fss hpX a' o.ty false f o' _ _ hname h1 hw hfind
+      obtain ⟨hpY, hset, hstep⟩ := setSlot_step (.sofa ci' vn) h1 hw
+      refine ⟨hpY, _, ?_, hv, hstep⟩
+      rw [hpf]
+      have : (psofaOf (vn, view)).sofaID = vn := hnames _ hmem
+      simp only [this]
+      rw [← hname]; exact hset
+    · have he1 : exp1 cass H isAnn o f.name .none = .none := rfl
+      rw [he1] at hw
+      exact ⟨hpX, _, postFeature_sofa_none K ts tsIdx ci' sofas fss hpX a' o.ty false f o' hname h1 hw, hv,
+        Step.same h1 hw⟩
+  · -- primitives
+    have key : ∀ w w', exp1 cass H isAnn o f.name v = w → exp2 cass H na ci' isAnn o f.name v = w' →
+        parsePrimValue ts (ts.types.length + 1) f.range w = .ok w' →
+        ∃ hpY v, postFeature K ts tsIdx ci' sofas fss hpX a' o.ty false f = .ok hpY ∧
+          alistGet? o.slots f.name = some v ∧ Step hpX hpY a' f.name (exp2 cass H na ci' isAnn o f.name v) := by
+      intro w w' hw1 hw2 hparse
+      rw [hw1] at hw
+      have hpf := postFeature_prim K ts tsIdx ci' sofas fss hpX a' o.ty f o' w w' hname hprim h1 hw hparse
+      obtain ⟨hpY, hset, hstep⟩ := setSlot_step w' h1 hw
+      exact ⟨hpY, v, by rw [hpf]; exact hset, hv, by rw [hw2]; exact hstep⟩
+    rcases hp with rfl | ⟨hint, i, rfl⟩ | ⟨hrange, s, rfl⟩ | ⟨hrange, b, rfl⟩ | ⟨hrange, t, rfl⟩
+    · exact key .none .none rfl rfl (rtp_parse_none _ _ _)
+    · exact key _ _ rfl rfl (primValue_roundtrip_int_aux ts _ f.range (rtp_intRange hint) _)
+    · exact key _ _ rfl rfl (by rw [hrange]; exact rtp_parse_str _ _ _)
+    · exact key _ _ rfl rfl (by rw [hrange]; exact primValue_roundtrip_bool_aux _ _ _)
+    · exact key _ _ rfl rfl (rtp_parse_float _ _ _ _ hrange)
+  · -- references
+    rcases hr with rfl | ⟨b, rfl, _, _⟩
+    · have he1 : exp1 cass H isAnn o f.name .none = .none := rfl
+      rw [he1] at hw
+      exact ⟨hpX, _, postFeature_ref_none K ts tsIdx ci' sofas fss hpX a' o.ty f o' hname hprim hty1 hr1 hr2 h1 hw,
+        hv, Step.same h1 hw⟩
+    · obtain ⟨x, hx, hx0, hq⟩ := href _ _ hv
+      have he1 : exp1 cass H isAnn o f.name (.ref b) = .str (showInt x) := by simp [exp1, hx]
+      have he2 : exp2 cass H na ci' isAnn o f.name (.ref b) = .ref (na x) := by simp [exp2, hx]
+      rw [he1] at hw
+      have hlook : lookupFs fss x = .ok (na x) := by rw [hfss]; exact lookupFs_fss _ _ _ _ hx0 hq
+      have hpf := postFeature_ref_str K ts tsIdx ci' sofas fss hpX a' o.ty f o' _ x _ hname hprim hty1 hr1 hr2 hty2
+        hr3 hr4 h1 hw (parseIntE_showInt x) hlook
+      obtain ⟨hpY, hset, hstep⟩ := setSlot_step (.ref (na x)) h1 hw
+      exact ⟨hpY, _, by rw [hpf]; exact hset, hv, by rw [he2]; exact hstep⟩
+
+/-! ### all features of one structure -/
+
+theorem postFeatures_flat (K : Consts) (ts : TypeSystem) (cass : List Cas) (ci : Nat) (c : Cas) (H : Heap)
+    (L : List (Int × Nat)) (na : Int → Nat) (tsIdx ci' : Nat) (sofas : List (Int × PSofa)) (fss : List (Int × Nat))
+    (hc : cass[ci]? = some c) (hnames : ∀ nv ∈ c.views, nv.2.sofa.sofaID = nv.1)
+    (hnd : (c.views.map (·.2.sofa.xid)).Nodup)
+    (hsofas : sofas = c.views.map (fun nv => (nv.2.sofa.xid, psofaOf nv)))
+    (hfss : fss = (0, H.length) :: L.map (fun q => (q.1, na q.1)))
+    (isAnn : Bool) (o : Obj) (x : Int) (a' : Nat)
+    (href : ∀ (n : String) (b : Nat), alistGet? o.slots n = some (.ref b) →
+      ∃ x : Int, xidOf H b = some x ∧ x ≠ 0 ∧ ∃ q ∈ L, q.1 = x)
+    (hty1 : isPrimitiveArray K o.ty = false) (hty2 : o.ty ≠ FS_ARRAY) :
+    ∀ (fs : List Feature), (fs.map (·.name)).Nodup → (∀ f ∈ fs, FlatFeat K ts c ci H isAnn o f) →
+    ∀ (hpX : Heap) (o' : Obj), hpX[a']? = some o' → o'.ty = o.ty → o'.xid = some x →
+      o'.slots.map (·.1) = o.slots.map (·.1) →
+      (∀ (n : String) (v : Val), alistGet? o.slots n = some v →
+        alistGet? o'.slots n = some (if n ∈ fs.map (·.name) then exp1 cass H isAnn o n v
+                                     else exp2 cass H na ci' isAnn o n v)) →
+    ∃ hpY, postFeatures K ts tsIdx ci' sofas fss a' o.ty false fs hpX = .ok hpY ∧ hpY.length = hpX.length ∧
+      (∀ b, b ≠ a' → hpY[b]? = hpX[b]?) ∧
+      ∃ o'' : Obj, hpY[a']? = some o'' ∧ ObjRel (exp2 cass H na ci' isAnn o) o o'' x := by
+  intro fs
+  induction fs with
+  | nil =>
+    intro _ _ hpX o' h1 hty hxid hkeys hslots
+    refine ⟨hpX, rfl, rfl, fun _ _ => rfl, o', h1, hty, hxid, hkeys, ?_⟩
+    intro n v hv
+    simpa using hslots n v hv
+  | cons f fs ih =>
+    intro hnodup hflat hpX o' h1 hty hxid hkeys hslots
+    rw [List.map_cons, List.nodup_cons] at hnodup
+    have hE1 : ∀ v, alistGet? o.slots f.name = some v →
+        alistGet? o'.slots f.name = some (exp1 cass H isAnn o f.name v) := by
+      intro v hv
+      have := hslots f.name v hv
+      rwa [if_pos (by simp)] at this
+    obtain ⟨hp1, v, hpf, hv, hlen, hframe, o1, o2, ho1, ho2, hty', hxid', hkeys', hget, hother⟩ :=
+      postFeature_flat K ts cass ci c H L na tsIdx ci' sofas fss hc hnames hnd hsofas hfss isAnn o f href hty1 hty2
+        (hflat f List.mem_cons_self) hpX a' o' h1 hE1
+    rw [h1] at ho1; cases ho1
+    obtain ⟨hpY, hpfs, hlenY, hframeY, hres⟩ := ih hnodup.2 (fun g hg => hflat g (List.mem_cons_of_mem _ hg)) hp1 o2 ho2
+      (hty'.trans hty) (hxid'.trans hxid) (hkeys'.trans hkeys) (by
+        intro n w hw
+        by_cases hn : n = f.name
+        · subst hn
+          rw [hv] at hw; cases hw
+          rw [hget, if_neg hnodup.1]
+        · rw [hother n hn, hslots n w hw]
+          simp [hn])
+    refine ⟨hpY, ?_, hlenY.trans hlen, fun b hb => (hframeY b hb).trans (hframe b hb), hres⟩
+    show (postFeature K ts tsIdx ci' sofas fss hpX a' o.ty false f >>= fun hp' =>
+      postFeatures K ts tsIdx ci' sofas fss a' o.ty false fs hp') = _
+    rw [hpf]
+    exact hpfs
+
+/-! ### all structures -/
+
+theorem postAll_cons (K : Consts) (ts : TypeSystem) (tsIdx ci' : Nat) (sofas : List (Int × PSofa))
+    (fss : List (Int × Nat)) (i : Int) (a : Nat) (rest : List (Int × Nat)) (hpX hp1 : Heap) (o' : Obj) (t : TypeRec)
+    (h1 : hpX[a]? = some o') (hgt : getType ts o'.ty = .ok t)
+    (hpf : postFeatures K ts tsIdx ci' sofas fss a o'.ty (isInstanceOf ts o'.ty STRING_ARRAY) (allFeatures t) hpX
+      = .ok hp1) :
+    postAll K ts tsIdx ci' sofas fss ((i, a) :: rest) hpX = postAll K ts tsIdx ci' sofas fss rest hp1 := by
+  rw [postAll]
+  simp only [h1]
+  show (getType ts o'.ty >>= fun t => _) = _
+  rw [hgt]
+  show (postFeatures K ts tsIdx ci' sofas fss a o'.ty (isInstanceOf ts o'.ty STRING_ARRAY) (allFeatures t) hpX
+    >>= fun hp' => _) = _
+  rw [hpf]
+  rfl
+
+theorem rtp_getType {ts : TypeSystem} {n : String} {t : TypeRec} (h : find? ts n = some t) : getType ts n = .ok t := by
+  unfold getType
+  rw [h]
+
+theorem postObj_flat (K : Consts) (ts : TypeSystem) (cass : List Cas) (ci : Nat) (c : Cas) (hp H : Heap)
+    (L : List (Int × Nat)) (na : Int → Nat) (tsIdx ci' : Nat) (sofas : List (Int × PSofa)) (fss : List (Int × Nat))
+    (hc : cass[ci]? = some c) (hwf : RTWf c hp) (hL : LOk K ts c ci H L)
+    (hsofas : sofas = c.views.map (fun nv => (nv.2.sofa.xid, psofaOf nv)))
+    (hfss : fss = (0, H.length) :: L.map (fun q => (q.1, na q.1)))
+    (q : Int × Nat) (hq : q ∈ L) (hpX : Heap) (o o' : Obj) (ho : H[q.2]? = some o) (ho' : hpX[na q.1]? = some o')
+    (hrel : ObjRel (E1 ts cass H o) o o' q.1) :
+    ∃ (hp1 : Heap) (t : TypeRec), getType ts o'.ty = .ok t ∧
+      postFeatures K ts tsIdx ci' sofas fss (na q.1) o'.ty (isInstanceOf ts o'.ty STRING_ARRAY) (allFeatures t) hpX
+        = .ok hp1 ∧ hp1.length = hpX.length ∧ (∀ b, b ≠ na q.1 → hp1[b]? = hpX[b]?) ∧
+      ∃ o'' : Obj, hp1[na q.1]? = some o'' ∧ ObjRel (E2 ts cass H na ci' o) o o'' q.1 := by
+  obtain ⟨o_, t, ho_, hfind, _, _, _, _, hty1, hty2, hsa, _, _, hnodup, hkeysT, hflat, _⟩ := hL.flat q hq
+  rw [ho] at ho_; cases ho_
+  obtain ⟨hty, hxid, hkeys, hslots⟩ := hrel
+  have href : ∀ (n : String) (b : Nat), alistGet? o.slots n = some (.ref b) →
+      ∃ x : Int, xidOf H b = some x ∧ x ≠ 0 ∧ ∃ q ∈ L, q.1 = x := by
+    intro n b hnb
+    obtain ⟨x, hx, hxL⟩ := hL.closed q hq o ho n b hnb
+    exact ⟨x, hx, (hL.ids _ hxL).2, (x, b), hxL, rfl⟩
+  obtain ⟨hp1, hpf, hlen, hframe, o'', ho'', hrel''⟩ :=
+    postFeatures_flat K ts cass ci c H L na tsIdx ci' sofas fss hc hwf.names hwf.sofa_ids_nodup hsofas hfss
+      (isInstanceOf ts o.ty ANNOTATION) o q.1 (na q.1) href hty1 hty2 (allFeatures t) hnodup hflat hpX o' ho' hty hxid
+      hkeys (by
+        intro n v hv
+        have hmem : n ∈ (allFeatures t).map (·.name) := by
+          have h1 := rtp_alistGet?_key _ _ _ hv
+          rw [hkeysT] at h1
+          exact List.mem_eraseDups.1 h1
+        rw [if_pos hmem]
+        exact hslots n v hv)
+  refine ⟨hp1, t, ?_, ?_, hlen, hframe, o'', ho'', hrel''⟩
+  · rw [hty]; exact rtp_getType hfind
+  · rw [hty, hsa]; exact hpf
+
+theorem postAll_flat_aux (K : Consts) (ts : TypeSystem) (cass : List Cas) (ci : Nat) (c : Cas) (hp H : Heap)
+    (L : List (Int × Nat)) (na : Int → Nat) (tsIdx ci' : Nat) (sofas : List (Int × PSofa)) (fss : List (Int × Nat))
+    (hc : cass[ci]? = some c) (hwf : RTWf c hp) (hL : LOk K ts c ci H L) (hna : NaOk H.length L na)
+    (hsofas : sofas = c.views.map (fun nv => (nv.2.sofa.xid, psofaOf nv)))
+    (hfss : fss = (0, H.length) :: L.map (fun q => (q.1, na q.1))) :
+    ∀ (Ls : List (Int × Nat)), (∀ q ∈ Ls, q ∈ L) → (Ls.map (·.1)).Nodup → ∀ (hpX : Heap),
+      HeapRel H Ls na (E1 ts cass H) hpX →
+      ∃ hpY, postAll K ts tsIdx ci' sofas fss (Ls.map (fun q => (q.1, na q.1))) hpX = .ok hpY ∧
+        hpY.length = hpX.length ∧ (∀ b, (∀ q ∈ Ls, b ≠ na q.1) → hpY[b]? = hpX[b]?) ∧
+        HeapRel H Ls na (E2 ts cass H na ci') hpY := by
+  intro Ls
+  induction Ls with
+  | nil =>
+    intro _ _ hpX _
+    exact ⟨hpX, rfl, rfl, fun _ _ => rfl, fun q hq => by cases hq⟩
+  | cons q Ls ih =>
+    intro hsub hnodup hpX hrel
+    rw [List.map_cons, List.nodup_cons] at hnodup
+    have hqL : q ∈ L := hsub q List.mem_cons_self
+    obtain ⟨o, o', ho, ho', hor⟩ := hrel q List.mem_cons_self
+    obtain ⟨hp1, t, hgt, hpf, hlen1, hframe1, o'', ho'', hor''⟩ :=
+      postObj_flat K ts cass ci c hp H L na tsIdx ci' sofas fss hc hwf hL hsofas hfss q hqL hpX o o' ho ho' hor
+    have hne : ∀ q' ∈ Ls, na q'.1 ≠ na q.1 := by
+      intro q' hq' he
+      have := hna.inj q' (hsub q' (List.mem_cons_of_mem _ hq')) q hqL he
+      exact hnodup.1 (List.mem_map.2 ⟨q', hq', this⟩)
+    obtain ⟨hpY, hpa, hlenY, hframeY, hrelY⟩ := ih (fun q' hq' => hsub q' (List.mem_cons_of_mem _ hq')) hnodup.2 hp1
+      (by
+        intro q' hq'
+        obtain ⟨p, p', hp_, hp', hpr⟩ := hrel q' (List.mem_cons_of_mem _ hq')
+        exact ⟨p, p', hp_, by rw [hframe1 _ (hne q' hq')]; exact hp', hpr⟩)
+    refine ⟨hpY, ?_, hlenY.trans hlen1, ?_, ?_⟩
+    · rw [List.map_cons, postAll_cons K ts tsIdx ci' sofas fss q.1 (na q.1) _ hpX hp1 o' t ho' hgt hpf]
+      exact hpa
+    · intro b hb
+      rw [hframeY b (fun q' hq' => hb q' (List.mem_cons_of_mem _ hq')), hframe1 b (hb q List.mem_cons_self)]
+    · intro q' hq'
+      rcases List.mem_cons.1 hq' with rfl | hq'
+      · refine ⟨o, o'', ho, ?_, hor''⟩
+        rw [hframeY _ (fun q'' hq'' => (hne q'' hq'').symm)]
+        exact ho''
+      · exact hrelY q' hq'
+
 theorem postAll_flat (K : Consts) (ts : TypeSystem) (cass : List Cas) (ci : Nat) (c : Cas) (hp H : Heap)
     (L : List (Int × Nat)) (na : Int → Nat) (tsIdx ci' : Nat) (p : Pass1)
     (hc : cass[ci]? = some c) (hwf : RTWf c hp) (hnull : NullOk ts) (hL : LOk K ts c ci H L)
     (hna : NaOk H.length L na) (hp1 : P1Spec ts cass c H L na p) :
     ∃ hp2 : Heap, postAll K ts tsIdx ci' p.sofas p.fss p.fss p.heap = .ok hp2 ∧ hp2.length = p.heap.length ∧
       hp2[H.length]? = p.heap[H.length]? ∧ HeapRel H L na (E2 ts cass H na ci') hp2 := by
-  sorry
+  obtain ⟨t0, hfind0, hfeat0⟩ := hnull
+  obtain ⟨o0, ho0, hty0, _, _⟩ := hp1.null
+  obtain ⟨hpY, hpa, hlen, hframe, hrel⟩ :=
+    postAll_flat_aux K ts cass ci c hp H L na tsIdx ci' p.sofas p.fss hc hwf hL hna hp1.sofas hp1.fss L
+      (fun _ h => h) hL.nodup p.heap hp1.rel
+  refine ⟨hpY, ?_, hlen, hframe _ (fun q hq => Nat.ne_of_lt (hna.gt q hq)), hrel⟩
+  have hstep := postAll_cons K ts tsIdx ci' p.sofas p.fss 0 H.length (L.map (fun q => (q.1, na q.1))) p.heap p.heap
+    o0 t0 ho0 (by rw [hty0]; exact rtp_getType hfind0) (by rw [hfeat0]; rfl)
+  rw [← hp1.fss] at hstep
+  rw [hstep]
+  exact hpa
 
 end Cassis.Xmi
+
